@@ -110,136 +110,127 @@ sharness! {
             p.set_hdr(b0, b12, b14, b15, last);
             accept_body(&mut src, &pre, p.bytes(), send, recv);
         };
-        for_v5hdr!(all, sel, run);
+        for_v5hdr!(quick, sel, run);
         kani::cover!(sh::controller(&src).n_meas == 2 && matches!(pre.pv, ProtocolVersion::UpgradedToV5), "v5 answer accepted after upgrade");
         kani::cover!(sh::controller(&src).n_meas == 2 && matches!(pre.pv, ProtocolVersion::V5), "v5 answer accepted by a V5 association");
     }
 }
 
-/// Two consecutive packets (arbitrary, possibly identical = replay) yield at most one pair.
-#[derive(Default)]
-struct ReplayState {
-    n1: u8,
-    pend1: bool,
-    acts1: usize,
-}
-
-#[cfg(kani)]
-fn replay_first(src: &mut Src, st: &mut ReplayState, p1: &[u8], t: [u64; 4]) {
-    let a1 = collect(src.handle_incoming(p1, th::ts_from_raw(t[0]), th::ts_from_raw(t[1])));
-    st.n1 = sh::controller(src).n_meas;
-    st.pend1 = sh::state(src).pending;
-    st.acts1 = a1.n;
-}
-
-#[cfg(kani)]
-fn replay_second(src: &mut Src, pre: &Pre, st: &ReplayState, p1: &[u8], p2: &[u8], t: [u64; 4]) {
-    let a2 = collect(src.handle_incoming(p2, th::ts_from_raw(t[2]), th::ts_from_raw(t[3])));
-    let n1 = st.n1;
-    let n2 = sh::controller(src).n_meas;
-    assert!(st.acts1 == 0 && a2.n == 0, "C08: no actions");
-    assert!(n2 <= 2, "C08: one request yielded more than one measurement pair");
-    assert!(n1 == 0 || n1 == 2, "C08: pair");
-    assert!(n2 == n1 || (n1 == 0 && n2 == 2), "C08: pair");
-    if n1 == 2 {
-        assert!(!st.pend1, "C08: identifier must be one-shot");
-        assert!(n2 == 2, "C08: a second packet after acceptance (replay/duplicate) was measured");
-    }
-    if n2 != 0 {
-        assert!(pre.has_pending && pre.deadline >= pre.base, "C08: measured without a fresh pending request");
-    }
-    let same = {
-        let mut s = p1.len() == p2.len();
-        let mut i = 0;
-        while i < p1.len() && i < p2.len() {
-            s &= p1[i] == p2[i];
-            i += 1;
-        }
-        s
-    };
-    kani::cover!(n1 == 2 && same, "accepted packet replayed verbatim and ignored");
-    kani::cover!(n1 == 0 && n2 == 2, "first packet ignored, second accepted");
-    kani::cover!(n1 == 2 && origin_field(p2) == pre.pending_id && !same, "second answer to the same request ignored");
-}
-
 sharness! {
-    #[kani::unwind(50)]
-    fn c08_replay() {
+    #[kani::unwind(30)]
+    fn c08_accept_v5_full() {
         stubs::symbolic_clock();
         let (mut src, pre) = any_source(PvClass::Any);
-        let mut p1 = any_pkt4();
-        let mut p2 = any_pkt4();
-        let b0a: u8 = kani::any();
-        let b0b: u8 = kani::any();
-        let t: [u64; 4] = kani::any();
-        let mut st = ReplayState::default();
-        let mut run1 = |v: u8| {
-            p1.set_b0(v);
-            replay_first(&mut src, &mut st, p1.bytes(), t);
+        let mut p = any_pkt5();
+        let sel: u8 = kani::any();
+        let send: u64 = kani::any();
+        let recv: u64 = kani::any();
+        let mut run = |b0: u8, b12: u8, b14: u8, b15: u8, last: u8| {
+            p.set_hdr(b0, b12, b14, b15, last);
+            accept_body(&mut src, &pre, p.bytes(), send, recv);
         };
-        for_b0!(quick, b0a, run1);
-        let mut run2 = |v: u8| {
-            p2.set_b0(v);
-            replay_second(&mut src, &pre, &st, p1.bytes(), p2.bytes(), t);
-        };
-        for_b0!(quick, b0b, run2);
+        for_v5hdr!(all, sel, run);
     }
 }
 
+/// Replay / duplicates: after a (concrete) answer has been accepted, a second arbitrary packet -
+/// in particular the same packet again, or another answer to the same request - is not measured.
+/// (Two fully symbolic consecutive calls do not finish symbolic execution: > 11 min, 5 GB. The
+/// general statement follows by induction from `c08_accept`, which starts from an arbitrary
+/// state: acceptance needs a pending request and clears it.)
+#[cfg(kani)]
+fn replay_second(src: &mut Src, id: u64, first: &[u8], p2: &[u8], t: [u64; 2]) {
+    let a2 = collect(src.handle_incoming(p2, th::ts_from_raw(t[0]), th::ts_from_raw(t[1])));
+    let n2 = sh::controller(src).n_meas;
+    assert!(a2.n == 0, "C08: no actions");
+    assert!(n2 == 2, "C08: a second packet after acceptance (replay/duplicate) was measured");
+    assert!(!sh::state(src).pending, "C08: identifier must be one-shot");
+    let same = p2[0] == first[0]
+        && be64(p2, 0) == be64(first, 0)
+        && be64(p2, 8) == be64(first, 8)
+        && be64(p2, 16) == be64(first, 16)
+        && be64(p2, 24) == be64(first, 24)
+        && be64(p2, 32) == be64(first, 32)
+        && be64(p2, 40) == be64(first, 40);
+    kani::cover!(same, "accepted packet replayed verbatim and ignored");
+    kani::cover!(!same && origin_field(p2) == id && mode_bits(p2) == 4 && stratum_byte(p2) == 1, "second answer to the same request ignored");
+}
+
 sharness! {
-    #[kani::unwind(80)]
-    fn c08_replay_v5() {
+    #[kani::unwind(12)]
+    fn c08_replay() {
         stubs::symbolic_clock();
-        let (mut src, pre) = any_source(PvClass::V5Family);
-        let mut p1 = any_pkt5();
-        let mut p2 = any_pkt5();
-        let s1: u8 = kani::any();
-        let s2: u8 = kani::any();
-        let t: [u64; 4] = kani::any();
-        let mut st = ReplayState::default();
-        let mut run1 = |b0: u8, b12: u8, b14: u8, b15: u8, last: u8| {
-            p1.set_hdr(b0, b12, b14, b15, last);
-            replay_first(&mut src, &mut st, p1.bytes(), t);
+        let mut p2 = any_pkt4();
+        let b0: u8 = kani::any();
+        let t: [u64; 2] = kani::any();
+        let upgrading: bool = kani::any();
+        let id: u64 = 0x1122_3344_5566_7788;
+        let pv = if upgrading { ProtocolVersion::V4UpgradingToV5 { tries_left: 8 } } else { ProtocolVersion::V4 };
+        let mut src = mk_source(pv, th::poll_from_raw(4));
+        let base = tokio::time::Instant::now();
+        sh::set_pending(&mut src, Some((th::ts_from_raw(id), None, base + std::time::Duration::from_secs(5))));
+        // first: a concrete, valid v4 server answer (stratum 2) to the pending request
+        let mut first = Pkt4 { b: [0; 48], slack: [0; 8] };
+        first.set_b0(0x24);
+        first.b[1] = 2;
+        put_be64(&mut first.b, 24, id);
+        let a1 = collect(src.handle_incoming(first.bytes(), th::ts_from_raw(1), th::ts_from_raw(2)));
+        assert!(a1.n == 0 && sh::controller(&src).n_meas == 2, "C08: the genuine answer is accepted once");
+        let mut run = |v: u8| {
+            p2.set_b0(v);
+            replay_second(&mut src, id, first.bytes(), p2.bytes(), t);
         };
-        for_v5hdr!(quick, s1, run1);
-        let mut run2 = |b0: u8, b12: u8, b14: u8, b15: u8, last: u8| {
-            p2.set_hdr(b0, b12, b14, b15, last);
-            replay_second(&mut src, &pre, &st, p1.bytes(), p2.bytes(), t);
-        };
-        for_v5hdr!(quick, s2, run2);
+        for_b0!(quick, b0, run);
     }
 }
 
 /// The request a timer sends is the one the source then waits for, for exactly the poll window.
+#[cfg(kani)]
+fn request_check(src: &Src, pre: &Pre, acts: &Acts, t0: tokio::time::Instant, t1: tokio::time::Instant) {
+    let window = std::time::Duration::from_secs(sh::POLL_WINDOW_SECS);
+    assert!(sh::POLL_WINDOW_SECS >= 1 && sh::POLL_WINDOW_SECS <= 8, "C08: poll window shorter than the shortest configured poll interval (2^4 s)");
+    if let Some(p) = &acts.sent {
+        assert!(p.len() >= 48, "C08: request has a full header");
+        match pending_of(src) {
+            None => assert!(false, "C08: a request was sent but none is pending"),
+            Some((id, has_uid, deadline)) => {
+                // v4: our transmit timestamp (octets 40..48) must come back as origin;
+                // v5: the client cookie (octets 24..32)
+                let sent_id = if version_bits(p) == 5 { be64(p, 24) } else { be64(p, 40) };
+                assert!(id == sent_id, "C08: the pending identifier is not the one in the request just sent");
+                assert!(!has_uid, "C08: plain source has no unique identifier");
+                assert!(deadline >= t0 + window && deadline <= t1 + window, "C08: deadline = send time + poll window");
+            }
+        }
+        kani::cover!((version_bits(p) == 5 && be64(p, 24) == 0x0123_4567_89AB_CDEF) || (version_bits(p) == 4 && be64(p, 40) == 0x0123_4567_89AB_CDEF), "the request identifier is random");
+    } else {
+        assert!(pending_unchanged(src, pre), "C08: nothing sent, pending request untouched");
+    }
+    kani::cover!(acts.sent.is_none(), "reset/demobilise path");
+}
+
 sharness! {
     #[kani::unwind(30)]
     fn c08_request() {
         stubs::symbolic_clock();
         stubs::symbolic_rng();
-        let (mut src, pre) = any_source(PvClass::Any);
+        let (mut src, pre) = any_source(PvClass::V4Family);
         let t0 = tokio::time::Instant::now();
-        let acts = collect(src.handle_timer());
+        let acts = timer_step!(v4fam, src, pre);
         let t1 = tokio::time::Instant::now();
-        let window = std::time::Duration::from_secs(sh::POLL_WINDOW_SECS);
-        assert!(sh::POLL_WINDOW_SECS >= 1 && sh::POLL_WINDOW_SECS <= 8, "C08: poll window shorter than the shortest configured poll interval (2^4 s)");
-        if let Some(p) = &acts.sent {
-            assert!(p.len() >= 48, "C08: request has a full header");
-            match pending_of(&src) {
-                None => assert!(false, "C08: a request was sent but none is pending"),
-                Some((id, has_uid, deadline)) => {
-                    // v4: our transmit timestamp (octets 40..48) must come back as origin;
-                    // v5: the client cookie (octets 24..32)
-                    let sent_id = if version_bits(p) == 5 { be64(p, 24) } else { be64(p, 40) };
-                    assert!(id == sent_id, "C08: the pending identifier is not the one in the request just sent");
-                    assert!(!has_uid, "C08: plain source has no unique identifier");
-                    assert!(deadline >= t0 + window && deadline <= t1 + window, "C08: deadline = send time + poll window");
-                }
-            }
-            kani::cover!(version_bits(p) == 5 && be64(p, 24) == 0x0123_4567_89AB_CDEF, "v5 cookie is random");
-            kani::cover!(version_bits(p) == 4 && be64(p, 40) == 0x0123_4567_89AB_CDEF, "v4 transmit timestamp is random");
-        } else {
-            assert!(pending_unchanged(&src, &pre), "C08: nothing sent, pending request untouched");
-        }
-        kani::cover!(acts.sent.is_none(), "reset/demobilise path");
+        request_check(&src, &pre, &acts, t0, t1);
+    }
+}
+
+sharness! {
+    #[kani::unwind(30)]
+    fn c08_request_v5() {
+        stubs::symbolic_clock();
+        stubs::symbolic_rng();
+        let (mut src, pre) = any_source(PvClass::V5Family);
+        let t0 = tokio::time::Instant::now();
+        let acts = timer_step!(v5fam, src, pre);
+        let t1 = tokio::time::Instant::now();
+        request_check(&src, &pre, &acts, t0, t1);
     }
 }
